@@ -186,6 +186,12 @@ func (r *Run) Violation(signature, what string, replay any) {
 		return
 	}
 	r.violSigs[signature] = true
+	if r.Replay != "" {
+		// replaying an artefact: report, never overwrite artefacts
+		fmt.Printf("VIOLATION property=%s replay=%s\n", r.ID, r.Replay)
+		fmt.Printf("  signature: %s\n  what: %s\n", signature, what)
+		return
+	}
 	dir := filepath.Join(Root(), "replays")
 	_ = os.MkdirAll(dir, 0o755)
 	path := filepath.Join(dir, fmt.Sprintf("%s-%d.json", r.ID, len(r.violSigs)))
